@@ -6,6 +6,7 @@ import (
 	"fmt"
 	"log/slog"
 	"runtime/debug"
+	"sync"
 	"time"
 
 	"github.com/DataDog/gostackparse"
@@ -35,6 +36,13 @@ type process struct {
 	mbuffer  []Envelope
 	// stopped is set once cleanup has run; a stopped process is never started again.
 	stopped bool
+
+	// stopWaiters holds the cancel funcs of the Stop/Poison calls that wait for
+	// this process; they are called when cleanup has finished, whichever poison
+	// pill, crash or parent shutdown it was that ended the process.
+	waitMu      sync.Mutex
+	stopWaiters []context.CancelFunc
+	finished    bool
 }
 
 func newProcess(e *Engine, opts Opts) *process {
@@ -199,7 +207,30 @@ func (p *process) stopReceiver() {
 	applyMiddleware(p.context.receiver.Receive, p.Opts.Middleware...)(p.context)
 }
 
+// notifyStopped arranges for cancel to be called once the process has finished
+// stopping. If it already has, cancel is called right away.
+func (p *process) notifyStopped(cancel context.CancelFunc) {
+	p.waitMu.Lock()
+	if p.finished {
+		p.waitMu.Unlock()
+		cancel()
+		return
+	}
+	p.stopWaiters = append(p.stopWaiters, cancel)
+	p.waitMu.Unlock()
+}
+
 func (p *process) cleanup(cancel context.CancelFunc) {
+	defer func() {
+		p.waitMu.Lock()
+		p.finished = true
+		waiters := p.stopWaiters
+		p.stopWaiters = nil
+		p.waitMu.Unlock()
+		for _, w := range waiters {
+			w()
+		}
+	}()
 	if cancel != nil {
 		defer cancel()
 	}
